@@ -276,6 +276,96 @@ pub fn case(c: &Case, obs: &mut Obs) -> PResult {
     }
 }
 
+/// The statistics built on the compensated sums inherit the bound, also when partial *states* are merged:
+/// chunks become `Arithmetic` states that are combined by `+` / `+=` along the history; the sum is read back as
+/// mean * n and the sum of squares as variance * (n-1) + mean * sum.
+fn arith_generic<F: Fl>(c: &Case, obs: &mut Obs) -> PResult {
+    let seq: Vec<F> = sequence::<F>(c);
+    let n = seq.len();
+    if n < 2 {
+        return Ok(());
+    }
+    let pat = PATTERNS[(c.pattern % 6) as usize];
+    let s64: Vec<f64> = seq.iter().map(|x| x.to64()).collect();
+    let sq64: Vec<f64> = seq.iter().map(|x| (*x * *x).to64()).collect();
+    if s64.iter().chain(sq64.iter()).any(|x| !x.is_finite()) {
+        obs.exclude("sequence whose terms or squares are not finite");
+        return Ok(());
+    }
+    let (s1, sa1) = exact_sum(&s64);
+    let (s2, _) = exact_sum(&sq64);
+    let (s1, sa1, s2) = (s1.to_f64(), sa1.to_f64(), s2.to_f64());
+    if !(s2.is_finite() && s2 < F::max_value().to64() / 4.0) || s2 < F::min_positive_value().to64() * 1e6 {
+        obs.exclude("sum of squares outside the normal range of the float type");
+        return Ok(());
+    }
+    obs.eval();
+    let chunk = (c.chunk.max(1)) as usize;
+    let leaves: Vec<Arithmetic<F>> = seq.chunks(chunk).map(|xs| <Arithmetic<F> as StatisticsOps<F>>::from_iter(&xs.to_vec()).unwrap()).collect();
+    let hist = ["left-fold", "right-fold", "balanced-tree", "alternating-fold"][(c.history % 4) as usize];
+    let state: Arithmetic<F> = match c.history % 4 {
+        0 => {
+            let mut acc = Arithmetic::<F>::new();
+            for (i, l) in leaves.iter().enumerate() {
+                if i % 2 == 0 {
+                    acc += *l;
+                } else {
+                    acc = acc + *l;
+                }
+            }
+            acc
+        }
+        1 => {
+            let mut acc = Arithmetic::<F>::new();
+            for l in leaves.iter() {
+                acc = *l + acc;
+            }
+            acc
+        }
+        2 => {
+            let mut level = leaves.clone();
+            while level.len() > 1 {
+                level = level.chunks(2).map(|p| if p.len() == 2 { p[0] + p[1] } else { p[0] }).collect();
+            }
+            level[0]
+        }
+        _ => {
+            let mut acc = Arithmetic::<F>::new();
+            for (i, l) in leaves.iter().enumerate() {
+                acc = if i % 2 == 0 { acc + *l } else { *l + acc };
+            }
+            acc
+        }
+    };
+    ensure!(state.sample_count() == n, format!("C08/arithmetic_merge/{hist}/count"), "merged count {} for {n} terms", state.sample_count());
+    let u = F::U;
+    let k = 8.0 + 8.0 * n as f64 * u;
+    let nf = n as f64;
+    let mean = state.sample_mean().to64();
+    let var = state.sample_variance().to64();
+    let sum_rec = mean * nf;
+    let e1 = (sum_rec - s1).abs();
+    let b1 = (k + 4.0) * u * sa1 + f64::MIN_POSITIVE;
+    ensure!(e1 <= b1, format!("C08/arithmetic_merge/{hist}/sum/{pat}"), "{} {pat} x{n} in chunks of {chunk} merged by {hist}: mean * n = {sum_rec:e}, exact sum {s1:e}, error {e1:e} = {:.1} u sum|x|", F::NAME, e1 / (u * sa1));
+    let sq_rec = var * (nf - 1.0) + mean * sum_rec;
+    let e2 = (sq_rec - s2).abs();
+    let b2 = (k + 12.0) * u * (s2 + nf * mean * mean) + f64::MIN_POSITIVE;
+    ensure!(e2 <= b2, format!("C08/arithmetic_merge/{hist}/sum_of_squares/{pat}"), "{} {pat} x{n} in chunks of {chunk} merged by {hist}: variance * (n-1) + mean * sum = {sq_rec:e}, exact sum of squares {s2:e}, error {e2:e} = {:.1} u sum x^2", F::NAME, e2 / (u * s2));
+    obs.headroom(&format!("arithmetic_merge/{}/{hist}", F::NAME), (e1 / b1).max(e2 / b2), || json!({"pattern": pat, "n": n, "chunk": chunk, "sum_err_u": e1 / (u * sa1), "sumsq_err_u": e2 / (u * s2)}));
+    obs.class(&format!("arithmetic_merge/{hist}"));
+    if leaves.len() >= 8 {
+        obs.nontrivial(&("arith", c.f32, c.pattern % 6, c.n, c.seed, c.c.0.to_bits(), c.history % 4, c.chunk));
+    }
+    Ok(())
+}
+pub fn arith_case(c: &Case, obs: &mut Obs) -> PResult {
+    if c.f32 {
+        arith_generic::<f32>(c, obs)
+    } else {
+        arith_generic::<f64>(c, obs)
+    }
+}
+
 fn scale() -> impl Strategy<Value = f64> {
     prop_oneof![
         3 => prop::sample::select(vec![0.1, 1.1, 3.3, 123.456, 1.0, 0.7, 1e-3, 2.5e4]),
@@ -298,6 +388,10 @@ pub fn run(run: &mut Run) {
     let seed = run.seed_for("random", 0);
     run.par(shards, |shard, obs| {
         crate::engine::prop_on(obs, "random", cases / shards as u32, crate::engine::mix(seed, "shard", shard as u64), strategy(60_000), case);
+    });
+    let seed_a = run.seed_for("arith", 0);
+    run.par(shards, |shard, obs| {
+        crate::engine::prop_on(obs, "arithmetic_merge", cases / shards as u32, crate::engine::mix(seed_a, "shard", shard as u64), strategy(20_000), arith_case);
     });
     // long streams and trees: explicit sizes
     let long: Vec<(u32, bool)> = match run.tier {
@@ -324,6 +418,9 @@ pub fn run(run: &mut Run) {
     for h in HISTORIES {
         run.require_class(&format!("history/{h}"));
     }
+    for h in ["left-fold", "right-fold", "balanced-tree", "alternating-fold"] {
+        run.require_class(&format!("arithmetic_merge/{h}"));
+    }
     for c in ["f32/constant/n>=1e6", "f32/same-sign/n>=1e6", "f32/tiny-increments/n<1e6", "f64/cancelling-pairs/n<1e4", "merge-with-nonzero-compensation"] {
         run.require_class(c);
     }
@@ -333,6 +430,7 @@ pub fn run(run: &mut Run) {
 pub fn replay(sub: &str, v: &Value, obs: &mut Obs) -> Option<PResult> {
     Some(match sub {
         "random" | "long" => case(&de(v), obs),
+        "arithmetic_merge" => arith_case(&de(v), obs),
         _ => return None,
     })
 }
